@@ -123,7 +123,7 @@ fn signed_perm(rng: &mut Rng, n: usize) -> Vec<Vec<f64>> {
 
 pub fn run_case(ctx: &Ctx, case: u64, ev: &mut Ev) {
     let mut rng = Rng::derive(ctx.seed, "C14", case);
-    rng.big = ctx.tier == crate::Tier::Thorough && rng.chance(0.2);
+    rng.big = crate::draw_big(ctx, &mut rng);
     let rg = if rng.chance(0.6) { Regime::Int } else { Regime::Dyadic };
     let n = 1 + rng.below(if rng.big { 7 } else { 5 });
     let p = poly(&mut rng, n, rg);
